@@ -188,11 +188,18 @@ EXAMPLE_RUNS = [
     ("path", ["sh", "-c", "echo x; echo y >&2"]), ("path", ["/nonexistent/program"]),
     ("env", ["VERIF_EXAMPLE=1", "OTHER=two words"]), ("env", []),
     ("poll", []),
+    # reproc++/examples/*.cpp (the C library's resources under the C++ wrapper's destructors and drain loops)
+    ("xx_drain", ["echo", "hello"]), ("xx_drain", ["sh", "-c", "echo out; echo err >&2; exit 3"]), ("xx_drain", ["/nonexistent/program"]),
+    ("xx_drain", ["sh", "-c", "head -c 250000 /dev/zero | tr '\\0' z"]),
+    ("xx_run", ["echo", "hi"]), ("xx_run", ["sh", "-c", "exit 4"]), ("xx_run", ["/nonexistent/program"]),
+    ("xx_forward", ["echo", "hi"]), ("xx_forward", ["sh", "-c", "exit 6"]), ("xx_forward", ["/nonexistent/program"]),
+    ("xx_background", ["sh", "-c", "echo a; sleep 0.2; echo b >&2"]), ("xx_background", ["/nonexistent/program"]),
+    ("xx_background", ["sh", "-c", "head -c 150000 /dev/zero | tr '\\0' w"]),
 ]
 
 
 def examples_pass(prop, tier, seed):
-    """C05, realistic-usage half: the repository's own example programs (reproc/examples/*.c, main renamed) linked
+    """C05, realistic-usage half: the repository's own example programs (reproc/examples/*.c and reproc++/examples/*.cpp, main renamed) linked
     against the interposed library under ASan+UBSan with the ownership ledger on (src/exdrv.c)."""
     import os
     import shutil
@@ -452,7 +459,7 @@ CHECKS = {
         "every user-supplied handle/FILE/standard stream must still be open; the same ledger oracle also runs (fault-free) over "
         "all 262 redirect configurations x 9 descriptor situations of C10, and over a slice of the workloads of C07/C08/C09/C14/C15/C16/C17 "
         "(poll and wait grids with expired deadlines, random call sequences, drain/run, stop and destroy in every state) whenever "
-        "every handle of the case was destroyed again; plus the repository's own example programs (reproc/examples) on 22 command lines under the ledger; "
+        "every handle of the case was destroyed again; plus the repository's own example programs (reproc/examples, reproc++/examples) on 35 command lines under the ledger; "
         "non-trivial = fault fired or fault-free scenario",
         {"ledger_checks": 3000, "faults_fired": 3000, "sites": 2000, "config_ledger_checks": 2000,
          "sequence_ledger_checks": 2500, "sequence_sources": 6, "win_handle_cases": 5000, "example_runs": 18, "example_programs": 6},
